@@ -21,7 +21,7 @@ pub fn families() -> Vec<Family> {
             "sequential register/merge/read/write/call histories (direct + Router mount) vs. JSON-tree model",
             c14_seq,
         )
-        .runs(15_000, 800_000)
+        .runs(120_000, 7_200_000)
         .deadlock(OnDeadlock::HarnessError),
         Family::new(
             "c14_conc",
@@ -29,7 +29,7 @@ pub fn families() -> Vec<Family> {
             "2-4 simulated threads x 1-4 registry requests, linearizability vs. JSON-tree model",
             c14_conc,
         )
-        .runs(10_000, 500_000)
+        .runs(80_000, 4_800_000)
         .deadlock(OnDeadlock::HarnessError),
     ]
 }
